@@ -288,6 +288,9 @@ func GenGroup(r *gen.R, b *Block, kind, n int, ids *idCounter, o GenOpts) *Group
 				nrefs = 0
 			case r.Chance(0.85):
 				nrefs = r.Range(1, 12)
+			case !o.Plain && r.Chance(0.15):
+				// ref counts at the sizes code likes to special-case
+				nrefs = r.Pick(63, 64, 65, 127, 128, 129, 255, 256, 257, 511, 512, 513, 1024)
 			default:
 				nrefs = r.Range(13, 120)
 			}
